@@ -307,20 +307,31 @@ namespace
         auto first = xor_list_get_other(begin_node, nullptr);
         auto last  = xor_list_get_other(end_node, nullptr);
 
-        if (greater(first, memory))
+        // list order of two nodes; first, last, last_dealloc and last_dealloc_prev can be the proxy nodes,
+        // whose addresses are unrelated to the addresses of the nodes: they are before/after everything
+        auto before = [&](char* a, char* b)
+        {
+            if (a == begin_node || b == end_node)
+                return a != b;
+            else if (a == end_node || b == begin_node)
+                return false;
+            return less(a, b);
+        };
+
+        if (before(memory, first))
             // insert at front
             return {begin_node, first};
-        else if (less(last, memory))
+        else if (before(last, memory))
             // insert at the end
             return {last, end_node};
-        else if (less(last_dealloc_prev, memory) && less(memory, last_dealloc))
+        else if (before(last_dealloc_prev, memory) && before(memory, last_dealloc))
             // insert before last_dealloc
             return {last_dealloc_prev, last_dealloc};
-        else if (less(memory, last_dealloc))
+        else if (before(memory, last_dealloc))
             // insert into [first, last_dealloc_prev]
             return find_pos_interval(info, memory, begin_node, first, last_dealloc_prev,
                                      last_dealloc);
-        else if (greater(memory, last_dealloc))
+        else if (before(last_dealloc, memory))
             // insert into (last_dealloc, last]
             return find_pos_interval(info, memory, last_dealloc_prev, last_dealloc, last, end_node);
 
